@@ -53,6 +53,7 @@ cls(
     interface=True,
     immutable=["terminate", "terminated", "event_class"],
     # shutdown, once begun, is never undone
+    inv=[("WorkerContext.inv.sticky", "self.terminated.g_sticky and self.terminate.g_sticky", "C07,C15")],
     rely=[("WorkerContext.rely.terminated-monotone", "implies(old(self.terminated.flag), self.terminated.flag)", "C15")],
 )
 fn("hypercorn.typing:WorkerContext.mark_request", params={}, modifies=[], effect="atomic", assume_only=True,
